@@ -108,7 +108,7 @@ func c14sys(sc *sim.Scenario, env *sim.Env) *sim.Violation {
 		return m
 	}
 	// world A: traced
-	smA, err := NewSysMachine(0, mkHole())
+	smA, err := NewSysMachine(env, 0, mkHole())
 	if err != nil {
 		return &sim.Violation{Oracle: "HARNESS_PANIC", Msg: err.Error()}
 	}
@@ -119,7 +119,7 @@ func c14sys(sc *sim.Scenario, env *sim.Env) *sim.Violation {
 	pA, pvA := sim.RecoverLib(func() { retA = smA.S.RunUntil(target, budget) })
 	regsA := cpuA{&smA.S.CPU}.Regs()
 	// world B: untraced
-	smB, err := NewSysMachine(1, mkHole())
+	smB, err := NewSysMachine(env, 1, mkHole())
 	if err != nil {
 		return &sim.Violation{Oracle: "HARNESS_PANIC", Msg: err.Error()}
 	}
@@ -168,7 +168,7 @@ func c14sys(sc *sim.Scenario, env *sim.Env) *sim.Violation {
 
 	// pass C: reference pass on machine 1, recording what each instruction looks like
 	// from outside just before it executes (the property's own definition of RunUntil)
-	smC, err := NewSysMachine(1, mkHole())
+	smC, err := NewSysMachine(env, 1, mkHole())
 	if err != nil {
 		return &sim.Violation{Oracle: "HARNESS_PANIC", Msg: err.Error()}
 	}
@@ -291,7 +291,7 @@ func c14alt(sc *sim.Scenario, env *sim.Env) *sim.Violation {
 	ss := sim.NewSink(env, int(sc.C("sink"))&3, int(sc.C("sinkk"))*4)
 	run := func(traced bool) (Regs, *SimMem, []preStep, [][]byte, bool, string) {
 		mem := mkMem()
-		mc := NewAltMachine(0, mem, 0, 0)
+		mc := NewAltMachine(env, 0, mem, 0, 0)
 		mc.CPU.SetRegs(startRegs(sc))
 		var recs []preStep
 		var lines [][]byte
